@@ -481,11 +481,12 @@ impl Check for TreeProp {
             let own_space = if rng.chance(0.4) { Some(gen::variant_space(&mut rng, &scn.space, None, 0.01)) } else { None };
             let mut geo = geo_for(own_space.as_ref().unwrap_or(&scn.space)).unwrap();
             let fam = *rng.pick(&["goal_overlap", "goal_overlap", "balls", "goal_invalid", "zero_weight", "thin_wall", "slivers"]);
-            let wb = gen::build_world(&mut geo, &mut rng, ext, fam);
+            let mut wb = gen::build_world(&mut geo, &mut rng, ext, fam);
+            wb.world.harness_metric = scn.worlds[0].harness_metric;
             scn.worlds.push(wb.world);
             scn.problems.push(ProblemSpec {
                 starts: vec![wb.start],
-                goal: GoalSpec { target: wb.target, radius: wb.goal_radius * rng.range(1.0, 2.5), sampler: GoalSampler::Harness, sampler_seed: rng.u64() % 1_000_000, comp: wb.goal_comp },
+                goal: GoalSpec { target: wb.target, radius: wb.goal_radius * rng.range(1.0, 2.5), sampler: GoalSampler::Harness, sampler_seed: rng.u64() % 1_000_000, comp: wb.goal_comp, harness_metric: scn.problems[0].goal.harness_metric },
                 world: 1,
                 space: own_space,
             });
